@@ -27,6 +27,8 @@ def obligations(tier):
         Ob('E.access', 'E', 'list_snapshots/list_files/restore/delete outputs per viewer follow the key relationships', '8 ownership sets x 3 viewers x 16 extra commands = 384',
            [F['ls'], F['lf'], F['rs'], F['del'], F['load']], module=H6, func='e_access', timeout=900, shards=4),
         Ob('E.unlock', 'E', 'unlock succeeds iff key file and password belong together', '3 keys x 3 passwords', [F['ul'], F['ik']], module=H6, func='e_unlock', timeout=300),
-        Ob('E.unlock64', 'E', 'blake2b user KDF with a 64-byte password: near-miss passwords (changed, shorter, longer with the same first 64 bytes) never unlock', '2 key kinds x 6 candidates',
+        Ob('E.printed', 'E', 'the key that init / add-key --shared / add-key PRINT (no output path): equals the returned key, private section unreadable, unlocks with its password and with no other (empty, wrong, padded, the owner\'s)',
+           '3 commands x 2 kdf x 5 passwords = 30', [F['ik'], 'replicat.repository:Repository._add_key', 'replicat.repository:Repository.init'], module=H6, func='e_printed_key', timeout=300),
+        Ob('E.unlock64', 'E', 'blake2b user KDF with a password of 64 / 65 / 100 bytes: refused with nothing written, or only that password unlocks (near misses: changed, shorter, longer, the same first 64 bytes)', '2 key kinds x 7 candidates x 3 lengths = 42',
            [F['ul'], F['ik'], 'replicat.utils.adapters:blake2b.derive'], module=H6, func='e_unlock_long', timeout=300),
     ] + obs
